@@ -21,6 +21,13 @@ from ..xfer import (
 from ..lab import hi
 
 
+def hi(oid):  # noqa: F811
+    """Requested ids carry a display label, as dvc sets on the ids it pushes / fetches."""
+    from dvc_data.hashfile.hash_info import HashInfo
+
+    return HashInfo("md5", oid, obj_name=f"data/{name_of(oid)}")
+
+
 def request_ids(trees, shape):
     files = files_of_trees(trees)
     dirs = [TREE_OID[t] for t in trees]
